@@ -295,6 +295,13 @@ def success_accounting(ctx, rep, rule, rule_forever=None):
         if b[0] == 'acc' and a[0] != 'acc':
             a, b = b, a
             op = {'<=': '>=', '>=': '<=', '<': '>', '>': '<'}.get(op, op)
+        if a[0] == 'acc' and b[0] == 'acc' and not T.mentions(a, is_wdone) and T.mentions(b, is_wdone):
+            # both sides were counted by loops: the one counted over the done sets is the accumulator
+            a, b = b, a
+            op = {'<=': '>=', '>=': '<=', '<': '>', '>': '<'}.get(op, op)
+        if b[0] == 'acc' and b[1] == ('const', 0) and len(b[2]) == 1 and not T.mentions(b, is_wdone):
+            # target = 0; for j in members: if not j.forever: target += 1  -- one increment, made before the loop
+            b = tuple(b[2])[0]
         ok = op in ('==', '>=')
         rep.check(ok, rule, site + " comparison", fn, "completion test `%s`" % T.show(cmp_, 3),
                   "success is declared when the count of completed jobs merely relates to the target by `%s`" % op,
@@ -589,6 +596,27 @@ def tidy_shape(ctx, rep, rule):
 
 
 # ================================================================ C08
+def deadline_in_helper_object(ctx, terms):
+    """the name of the helper class when a wait's timeout is read from a field of an object of a package class kept
+    in an attribute of the scheduler (`self._deadline.expiration - clock()`): the deadline rules read a deadline
+    kept in an attribute of the scheduler itself, and say so instead of guessing"""
+    for t in terms:
+        if t is None:
+            continue
+        for s in T.subterms(t):
+            if isinstance(s, tuple) and len(s) == 3 and s[0] == 'attr' and isinstance(s[1], tuple) and s[1][:2] == ('attr', T.SELF):
+                for cls in ctx.prog.classes.values():
+                    fields = {n.target.id for n in cls.node.body if isinstance(n, ast.AnnAssign)
+                              and isinstance(n.target, ast.Name)}
+                    fields |= {n.attr for m in cls.methods.values() for n in ast.walk(m.node)
+                               if isinstance(n, ast.Attribute) and isinstance(n.ctx, ast.Store)
+                               and isinstance(n.value, ast.Name) and n.value.id == 'self'}
+                    if s[2] in fields and cls not in ctx.roles.sched.mro and ctx.roles.sched not in cls.mro \
+                            and ctx.roles.jobbase not in cls.mro:
+                        return "%s (self.%s.%s)" % (cls.name, s[1][2], s[2])
+    return None
+
+
 def deadline(ctx, rep, rule_fixed, rule_armed):
     r = ctx.roles
     an, ip, out = ctx.run()
@@ -596,6 +624,11 @@ def deadline(ctx, rep, rule_fixed, rule_armed):
     D = r.deadline_attr
     waits = an.events('WAIT')
     rep.need(rule_armed, len(waits), 1, "main waits")
+    helper = deadline_in_helper_object(ctx, [e.data['timeout'] for e in waits])
+    if helper:
+        rep.error(rule_fixed, "the deadline of the run is kept in a helper object, %s: this rule reads a deadline stored "
+                  "in an attribute of the scheduler and cannot decide this form" % helper)
+        return
     clocks = set()
     armed = 0
     for e in waits:
